@@ -9,6 +9,8 @@ pub mod c11;
 pub mod c12;
 pub mod c13;
 pub mod c15;
+pub mod c16;
+pub mod c18;
 
 use symcore::Config;
 
@@ -25,6 +27,8 @@ pub fn instances(prop: &str, tier: &str, seed: u64) -> Vec<String> {
         "C12" => c12::instances(tier),
         "C13" => c13::instances(tier),
         "C15" => c15::instances(tier),
+        "C16" => c16::instances(tier),
+        "C18" => c18::instances(tier),
         _ => vec![],
     }
 }
@@ -49,6 +53,8 @@ pub fn body(prop: &str, inst: &str) {
         "C12" => c12::body(inst),
         "C13" => c13::body(inst),
         "C15" => c15::body(inst),
+        "C16" => c16::body(inst),
+        "C18" => c18::body(inst),
         _ => panic!("unknown property {}", prop),
     }
 }
